@@ -326,9 +326,13 @@ def valid_capture(rng, big=False):
     kmax = max(1, min(8, 1400 // L))
     recs, exp = [], []
     first_k = rng.choice([1, 1, 2, 3])
+    def foreign_rec():
+        # foreign records are also written snap-length truncated (orig_len > incl_len), as a capture tool would
+        fp = foreign_packet(rng, L)
+        return rec_bytes(fp, orig=len(fp) + rng.choice([0, 0, 1, 486, 1400, 60000]))
     for i in range(npk):
         while rng.random() < 0.35:
-            recs.append(rec_bytes(foreign_packet(rng, L)))
+            recs.append(foreign_rec())
         k = min(kmax, first_k if i == 0 else rng.randrange(1, kmax + 1))
         if i == 0:
             frames = [frame(rng, L) for _ in range(k)]       # sync word only at frame starts
@@ -341,7 +345,7 @@ def valid_capture(rng, big=False):
         recs.append(rec_bytes(samdec_packet(rng, frames), sec=rng.boundary(32), usec=rng.randrange(0, 10**6)))
         exp += frames
     while rng.random() < 0.35:
-        recs.append(rec_bytes(foreign_packet(rng, L)))
+        recs.append(foreign_rec())
     return GHDR + b"".join(recs), exp
 
 def quirk_capture(rng):
